@@ -11,6 +11,15 @@ Definition c04_h (T : Z) : nat := Z.to_nat (Height T).
 Definition c04_T_ok (T : Z) : bool := (1 <=? T) && (T <? 2 ^ 31).
 Definition c04_u64 (x : Z) : bool := (0 <=? x) && (x <? 2 ^ 64).
 
+(** [dbg] selects the model of the build under test (see below).  On trees higher than 10 the
+    model side of Decode is evaluated by the linear-time [fast_decode], which is proved equal to
+    the model of both builds (Properties/C04.v: C04_decode_fast), so that a height-16 case costs
+    milliseconds instead of seconds. *)
+Definition c04_pti (dbg : bool) := if dbg then PathToIndex_debug else PathToIndex.
+Definition c04_dec (dbg : bool) (T : Z) (bm : list Z) : option (list Z) :=
+  if Height T <=? 10 then (if dbg then Decode_debug else Decode) T bm
+  else Some (fast_decode T (c04_h T) bm).
+
 (** a node as a 0/1 list *)
 Definition c04_node (v : val) : option node :=
   match as_zs v with
@@ -41,7 +50,7 @@ Definition c04_roundtrip (dbg : bool) (T : Z) (ss : list node) : option (list Z)
   | Some idxs =>
       match Of idxs None with
       | None => None
-      | Some bm => (if dbg then Decode_debug else Decode) T bm
+      | Some bm => c04_dec dbg T bm
       end
   end.
 
@@ -72,8 +81,6 @@ Definition c04_spec_allpaths (a : list val) : val :=
 
 (** [dbg] selects the model of the build under test: release (contracts compiled out) or
     [-tags debug] (PathToIndex runs its contracts first).  The specification is the same. *)
-Definition c04_pti (dbg : bool) := if dbg then PathToIndex_debug else PathToIndex.
-Definition c04_dec (dbg : bool) := if dbg then Decode_debug else Decode.
 
 Definition c04_run_decode_b (dbg : bool) (a : list val) : val :=
   match a with
@@ -88,7 +95,7 @@ Definition c04_run_decode := c04_run_decode_b false.
 Definition c04_spec_decode (a : list val) : val :=
   match a with
   | [T; bm] => match as_z T, as_zs bm with
-      | Some T, Some bm => vzs (spec_decode T (c04_h T) bm)
+      | Some T, Some bm => vzs (check_decode T (c04_h T) bm)
       | _, _ => VBad end
   | _ => VBad end.
 
